@@ -170,6 +170,9 @@ func runC18(c *core.Ctx) {
 		"{% if a <= b %}T{% else %}F{% endif %}", "{% if a >= b %}T{% else %}F{% endif %}", "{{ a == b }}{{ a < 3 }}{{ 2.5 >= b }}{{ a == 3 }}", "{{ a | plus: b }}", "{{ a | minus: b }}", "{{ a | times: b }}",
 		"{{ a | divided_by: b }}", "{{ a | modulo: b }}", "{{ a | abs }}|{{ b | abs }}", "{{ a | ceil }}|{{ a | floor }}|{{ a | round }}", "{{ a | round: 1 }}|{{ b | round: 2 }}",
 		"{% case a %}{% when b %}same{% when 3 %}three{% else %}other{% endcase %}", "{% if a %}T{% endif %}", "{{ a | plus: 1 | times: b | minus: a }}", "{{ 10 | minus: a }}|{{ 2.5 | times: b }}|{{ 100 | divided_by: a }}",
+		// what a filter computed from the number enters later operations as the same kind of number for every width
+		"{% assign n = a | plus: 1 %}{{ 7 | divided_by: n }}|{{ n }}", "{% assign n = a | times: 1 %}{% for i in (1..n) %}{{ i }}{% endfor %}", "{% assign n = a | minus: 0 %}{% for i in (1..5) limit: n %}{{ i }}{% endfor %}",
+		"{% assign n = a | abs %}{{ 9 | divided_by: n }}|{{ 9 | modulo: n }}|{{ n | divided_by: 2 }}", "{% assign n = a | plus: b %}{{ 7 | divided_by: n }}{% if n == 3 %}three{% endif %}{{ n | round }}",
 		"{% if arrn contains a %}T{% else %}F{% endif %}", "{{ arrn | sort | join: ',' }}", "{{ arrn | uniq | join: ',' }}", "{{ arrn | first | plus: a }}", "{% assign s = a | plus: b %}{{ s }}",
 		"{% if a > 0 and b > 0 %}pos{% endif %}{% if a < b or a == b %}le{% endif %}",
 	}
@@ -249,6 +252,23 @@ func runC18(c *core.Ctx) {
 			continue
 		}
 		c18Compare(c, e, "bytes", src, env, gen.Rep{Bytes: true}, 2, i)
+	}
+	// ---- (6b) fixed arrays of the generic element type, compared as wholes: [2]any is a comparable Go type, but what decides
+	// is the Liquid value of the elements (a Drop of 1, an int8 1 and a 1.0 are 1), exactly as for slices
+	if c.Shard == 17%c.NShards && c.Begin("fixed arrays of any") {
+		one := 1
+		b := map[string]any{"plain": [2]any{1, 2}, "drops": [2]any{gen.DropV{X: 1}, 2}, "widths": [2]any{int8(1), uint16(2)}, "floats": [2]any{1.0, float32(2)}, "pdrop": [2]any{&gen.DropP{X: 1}, 2},
+			"slice": []any{1, 2}, "typed": [2]int{1, 2}, "other": [2]any{1, 3}, "ptr": &[2]any{1, 2}, "nested": [1]any{[2]any{gen.DropV{X: 1}, 2}}, "nestedplain": [1]any{[2]any{1, 2}}, "strs": [2]any{gen.NTitle("a"), "b"}, "strsplain": [2]any{"a", "b"}, "unused": &one}
+		names := []string{"drops", "widths", "floats", "pdrop", "slice", "typed", "ptr"}
+		for _, n := range names {
+			src := strings.ReplaceAll("{% if X == plain %}eq{% else %}ne{% endif %}{% if plain == X %}eq{% else %}ne{% endif %}{% if X != plain %}ne{% else %}eq{% endif %}{% if X == other %}eq{% else %}ne{% endif %}"+
+				"{% case X %}{% when other %}O{% when plain %}P{% else %}E{% endcase %}{% assign l = 'x,y' | split: ',' %}{{ X | first }}{{ X | last }}{{ X | size }}{{ X[1] }}", "X", n)
+			expectOut(c, e, src, b, "eqeqeqneP1222", "fixed-array-of-any", "a fixed array with generic elements equals the array with the same Liquid values, whatever Go representation the elements have", map[string]any{"compared": n + " with plain = [2]any{1, 2}"})
+			c.Obs("fixed_array_of_any_cases", 1)
+			c.Distinct("fixedany", n)
+		}
+		expectOut(c, e, "{% if nested == nestedplain %}eq{% else %}ne{% endif %}{% if strs == strsplain %}eq{% else %}ne{% endif %}{% if nested contains plain %}has{% else %}not{% endif %}", b, "eqeqhas",
+			"fixed-array-of-any", "a fixed array with generic elements equals the array with the same Liquid values, whatever Go representation the elements have", nil)
 	}
 	// ---- (7) empty collections: an empty array is an empty array in every Go representation, an empty map an empty map ------------
 	if c.Shard == 16%c.NShards && c.Begin("empty collections") {
